@@ -41,6 +41,8 @@ class Roles:
         # loops
         self.main_iter = self.main_next = None
         self.main_loop = None
+        self.main_bound: Optional[Term] = None  # islice(self.main_sampler, <bound>): the epoch is cut by the iterator itself
+        self.main_source_node: Optional[int] = None  # where that iterator is created (iter() is taken there, not at the loop)
         self.cfg_iter = self.cfg_next = None
         self.cfg_loop = None
         self.cfg_idx_var = self.cfg_var = None
@@ -52,7 +54,13 @@ class Roles:
             loop = nd.owner
             it = fa.sym.term(loop.iter, n)
             nxt = cfg.out_edge(n, None)
-            if it == ("self", "main_sampler"):
+            sl = _islice_of(fa, loop.iter, n)
+            if sl is not None and sl[0] == ("self", "main_sampler"):
+                # for i in islice(self.main_sampler, L): the loop ends by itself after L indices
+                self.main_iter, self.main_next, self.main_loop = n, nxt, loop
+                self.main_bound = sl[1]
+                self.main_source_node = sl[2]
+            elif it == ("self", "main_sampler"):
                 self.main_iter, self.main_next, self.main_loop = n, nxt, loop
             elif it == ("call", ("global", "enumerate"), (("self", "configs"),), ()):
                 self.cfg_iter, self.cfg_next, self.cfg_loop = n, nxt, loop
@@ -227,6 +235,22 @@ class Roles:
         return self.fa.sym.term(self.fa.cfg.nodes[n].ast, n)
 
 
+def _islice_of(fa: FA, e: ast.AST, at: int):
+    """e (a loop's iterable) is islice(X, L), directly or through a local bound once: -> (term of X, term of L, node where the
+    islice object is created).  itertools.islice calls iter(X) when it is created."""
+    node = at
+    if isinstance(e, ast.Name):
+        defs = [d for d in fa.cfg.reaching().get(at, {}).get(e.id, ()) if fa.cfg.nodes[d].kind != "entry"]
+        if len(defs) != 1:
+            return None
+        node = defs[0]
+        e = fa.cfg.def_value(node, e.id)
+    if isinstance(e, ast.Call) and ((isinstance(e.func, ast.Name) and e.func.id == "islice") or (
+            isinstance(e.func, ast.Attribute) and e.func.attr == "islice")) and len(e.args) == 2 and not e.keywords:
+        return fa.sym.term(e.args[0], node), fa.sym.term(e.args[1], node), node
+    return None
+
+
 def eq_atoms(t: Term) -> List[Term]:
     """The 'lhs - rhs' polynomials of the equality disjuncts of a condition."""
     if t[0] == "or":
@@ -253,3 +277,130 @@ def split_eq(poly_t: Term) -> Optional[Tuple[Term, Term]]:
     if v1 == -1 and v2 == 1:
         return k2[0][0], k1[0][0]
     return None
+
+
+# ---- path conditions as boolean formulas ------------------------------------------------------------------------------------
+class GiveUp(Exception):
+    pass
+
+
+def formula_of(t: Term, env) -> tuple:
+    """Boolean structure of a condition term: ('and'|'or', [..]) | ('not', f) | ('const', b) | ('atom', term).  Ordering atoms are
+    kept in one orientation ('le' is the negation of the mirrored 'lt', 'ne' of 'eq'); boolean locals are replaced by what the
+    path stored in them (env)."""
+    from ..sym import negate
+    if not isinstance(t, tuple) or not t:
+        return ("atom", t)
+    k = t[0]
+    if k in ("and", "or"):
+        return (k, [formula_of(x, env) for x in t[1]])
+    if k == "not":
+        return ("not", formula_of(t[1], env))
+    if k == "const" and isinstance(t[1], bool):
+        return t
+    if k == "ifexp":
+        c = formula_of(t[1], env)
+        return ("or", [("and", [c, formula_of(t[2], env)]), ("and", [("not", c), formula_of(t[3], env)])])
+    if k == "ne":
+        return ("not", ("atom", ("eq", t[1])))
+    if k == "le":
+        return ("not", ("atom", negate(t)))
+    if k == "var" and "." not in t[1] and t[1] in env:
+        return env[t[1]]
+    return ("atom", t)
+
+
+def path_condition(fa: FA, start: int, targets: Set[int], within: Set[int], barrier: Set[int] = frozenset(), limit: int = 20000):
+    """The condition under which control gets from ``start`` to one of ``targets`` without leaving ``within`` or passing a barrier
+    node: OR over the paths of the conjunction of their branch conditions.  for-loops on the way are stepped over (their body is
+    not entered; locals assigned in it are forgotten); a while loop or a cycle makes the analysis give up.
+    -> (formula, number of paths)"""
+    cfg = fa.cfg
+    paths: List[tuple] = []
+    budget = [limit]
+
+    def assigned_in(loop) -> Set[str]:
+        return {n.id for b in loop.body for n in ast.walk(b) if isinstance(n, ast.Name) and isinstance(n.ctx, ast.Store)}
+
+    def walk(n, env, conds, seen):
+        budget[0] -= 1
+        if budget[0] < 0:
+            raise GiveUp("too many paths")
+        if n in targets:
+            paths.append(("and", list(conds)))
+            return
+        if n in barrier or n not in within:
+            return
+        if n in seen:
+            raise GiveUp("a cycle lies on the way")
+        nd = cfg.nodes[n]
+        seen = seen | {n}
+        if nd.kind == "next":
+            out = cfg.out_edge(n, False)
+            if any(t_ in cfg.nodes_inside(nd.owner.body) for t_ in targets):
+                raise GiveUp("the target lies inside a loop on the way")
+            env2 = {k: v for k, v in env.items() if k not in assigned_in(nd.owner)}
+            if out is not None:
+                walk(out, env2, conds, seen)
+            return
+        if nd.kind == "test":
+            if isinstance(nd.owner, ast.While):
+                raise GiveUp("a while loop lies on the way")
+            f = formula_of(fa.sym.term(nd.ast, n), env)
+            if isinstance(nd.owner, ast.Assert):
+                m = cfg.out_edge(n, True)
+                if m is not None:
+                    walk(m, env, conds, seen)
+                return
+            for lab in (True, False):
+                m = cfg.out_edge(n, lab)
+                if m is not None:
+                    walk(m, env, conds + [f if lab else ("not", f)], seen)
+            return
+        if nd.kind == "stmt":
+            new_env = None
+            for var, tgt, val in cfg.defs_at(n):
+                if "." in var or "[" in var:
+                    continue
+                new_env = dict(env) if new_env is None else new_env
+                st = nd.ast
+                if isinstance(st, ast.AugAssign) and isinstance(st.op, (ast.BitOr, ast.BitAnd)) and var in env:
+                    rhs = formula_of(fa.sym.term(st.value, n), env)
+                    new_env[var] = ("or" if isinstance(st.op, ast.BitOr) else "and", [env[var], rhs])
+                elif val is not None and isinstance(st, (ast.Assign, ast.AnnAssign)) and isinstance(tgt, ast.Name):
+                    new_env[var] = formula_of(fa.sym.term(val, n), env)
+                else:
+                    new_env.pop(var, None)
+            env = new_env if new_env is not None else env
+        for m in cfg.g.successors(n):
+            if m in (cfg.exit, cfg.raise_exit) and m not in targets:
+                continue
+            walk(m, env, conds, seen)
+
+    walk(start, {}, [], frozenset())
+    return ("or", paths), len(paths)
+
+
+def formula_atoms(f, out=None) -> List[Term]:
+    out = [] if out is None else out
+    if f[0] in ("and", "or"):
+        for x in f[1]:
+            formula_atoms(x, out)
+    elif f[0] == "not":
+        formula_atoms(f[1], out)
+    elif f[0] == "atom" and f[1] not in out:
+        out.append(f[1])
+    return out
+
+
+def formula_eval(f, val) -> bool:
+    k = f[0]
+    if k == "and":
+        return all(formula_eval(x, val) for x in f[1])
+    if k == "or":
+        return any(formula_eval(x, val) for x in f[1])
+    if k == "not":
+        return not formula_eval(f[1], val)
+    if k == "const":
+        return bool(f[1])
+    return val[f[1]]
